@@ -371,6 +371,7 @@ const (
 	clauseStream   = "client stream = Model.C12.clientStream (status, kind of outcome, body bytes, keep-alive)"
 	clauseClean    = "the client reads a complete well-formed error response or a prefix no parser accepts as complete"
 	clauseXFE      = "every error response carries X-Forwarder-Error"
+	clauseOwnText  = "an error response describes its own exchange: never a response that parses as complete but is mixed with the text of another"
 	clauseFramed   = "every error response is self-delimiting (Content-Length = body length) and well-formed"
 	clauseStatus   = "502 for connection and TLS failures, 504 for connect time-outs, the upstream proxy's status for a rejected CONNECT, otherwise 5xx"
 	clauseClose    = "a torn response is followed by a close"
@@ -753,6 +754,9 @@ func judgeFault(ctx *core.Ctx, c *Case, o *Obs) {
 	}
 }
 
+// quotedHostRe: a generated case host (c<seq>.<class>.test[:port]) quoted in an error message.
+var quotedHostRe = regexp.MustCompile(`host \\?"(c[0-9]+\.[a-z0-9.-]*\.test(?::[0-9]+)?)\\?"`)
+
 // checkErrorShape compares the error response field by field with Model.C12.writtenError: status line,
 // Content-Length = body length, Content-Type, X-Forwarder-Error = name SP error, Connection: close iff
 // the request asked for it, body = name SP msg LF error LF.
@@ -766,6 +770,15 @@ func checkErrorShape(ctx *core.Ctx, c *Case, s *seen, fail func(clause, detail s
 	}
 	errText := strings.TrimPrefix(xfe, name+" ")
 	body := string(res.Body)
+	// every case names a host of its own (c<seq>.….test): an error body that quotes the host of ANOTHER
+	// case is the text of another exchange (error responses are built on one connection and written later;
+	// storage shared between connections in that window shows here, under concurrent faults only)
+	for _, m := range quotedHostRe.FindAllStringSubmatch(body, -1) {
+		if own := strings.ToLower(c.ID) + "."; !strings.HasPrefix(strings.ToLower(m[1]), own) {
+			fail(clauseOwnText, fmt.Sprintf("the body of the error response to %s quotes host %q of another exchange (X-Forwarder-Error: %q; body %q)", c.host(), m[1], xfe, tailStr(body, 200)))
+			return
+		}
+	}
 	tail := "\n" + errText + "\n"
 	if !strings.HasPrefix(body, name+" ") || !strings.HasSuffix(body, tail) {
 		// the error text is folded to one line in the field (line breaks become spaces): only when it has
